@@ -69,7 +69,7 @@ def one_config(ctx, c, q, builds):
         sizes = SIZES_BIG if name == "simple256" else SIZES
         # (1) design: exhaustive BFS with small request set
         mcs = "{0, 8, 9, 24, 40, 72}" if name != "simple256" else "{0, 8, 240, 256, 264}"
-        r = ctx.tlc("MC_Pool", cfg=cfg_consts(c, mcs, 3, 5 if q else 7, handles=2) +
+        r = ctx.tlc("MC_Pool", cfg=cfg_consts(c, mcs, 3, 5 if q else 6, handles=2) +
                     "SPECIFICATION Spec\nINVARIANT Inv\nCONSTRAINT Constraint\nVIEW View\nCHECK_DEADLOCK FALSE\n",
                     tag=f"MC_Pool_{name}", timeout=3000, xmx="6g", workers=4)
         if "is violated" in r["out"] or r["exit"] not in (0,):
@@ -79,7 +79,7 @@ def one_config(ctx, c, q, builds):
         ctx.log(f"MC_Pool[{name}]: {r['distinct']} distinct states, {r['generated']} generated, exit {r['exit']}")
         # (2) behaviours by simulation, replayed on the real allocator
         gcfg = cfg_consts(c, sizes, 100000, 100000) + f"  Depth = {20 if q else 40}\nINIT GInit\nNEXT GNext\nINVARIANT EmitBeh\nCHECK_DEADLOCK FALSE\n"
-        recs = ctx.tlc_emit("Gen_Pool", cfg=gcfg, tag=f"Gen_Pool_{name}", simulate=8 if q else 200, depth=(20 if q else 40) + 1,
+        recs = ctx.tlc_emit("Gen_Pool", cfg=gcfg, tag=f"Gen_Pool_{name}", simulate=8 if q else 60, depth=(20 if q else 40) + 1,
                             workers=3, timeout=3000, xmx="4g")
         rows = rows_of(recs)
         p = os.path.join(ctx.work, f"pool_{name}.tsv")
